@@ -27,6 +27,7 @@ import GraphiqModel.Proofs.InvValid
 import GraphiqModel.Proofs.InnerProductCount
 import GraphiqModel.Proofs.InvClifford
 import GraphiqModel.Proofs.InvGauge
+import GraphiqModel.Proofs.SweepKet
 namespace Graphiq.C05
 open Graphiq Graphiq.PRow Graphiq.STab Graphiq.Tab
 
@@ -177,8 +178,9 @@ theorem equality_exact (a b ca cb : STab) (ha : a.Good) (hb : b.Good)
   * `Orth A B`         — some Pauli `P` lies in `A` and `−P` lies in `B`;                          then ⟨a|b⟩ = 0;
   * `OverlapDim A B d` — `A ∩ B` has an independent generating set of `d` elements (`|A ∩ B| = 2^d`; `d` is unique:
                          `overlap_dim_unique`);                        then, if not `Orth A B`, |⟨a|b⟩|² = 2^{-(n-d)}.
-  Both are properties of the two groups, not of the generating sets.  The Hilbert-space reading on the right is textbook
-  mathematics (Aaronson–Gottesman 2004; Garcia–Markov–Cross 2012) and is cited, **not** proved here.
+  Both are properties of the two groups, not of the generating sets.  The Hilbert-space reading on the right was cited as
+  textbook mathematics (Aaronson–Gottesman 2004; Garcia–Markov–Cross 2012) when this section was written; it is a theorem now:
+  `fidelity_is_state_overlap`, `fidelity_is_squared_inner_product` below, and independently `C07.stabilizer_state_overlap`.
 
   The model `STab.innerProduct a b` returns `ok none` for the value `0` and `ok (some e)` for the value `2^{-e/2}`
   (fidelity `2^{-e}`).  The theorems below are **unconditional** (every n, every pair of real commuting generating sets,
@@ -759,5 +761,46 @@ theorem d42_witness_now_synthesised :
     (STab.ofTab d42Tab).Good ∧ (invOut (STab.ofTab d42Tab)).1.isZero = true ∧
     STab.innerProduct d42Tab d42Tab = .ok (some 0) :=
   ⟨good_of_check _ (by decide +kernel), by decide +kernel, ok_of_check _ _ (by decide +kernel)⟩
+
+/-! ## Cross-references (sweep): C05 and C07 on "same state ⇔ same group" and on the overlap
+
+  `same_density_matrix_iff_same_group` (this file: via the `inner_product` algorithm, valid tableaux, criterion `Spn`) and
+  `C07.stabilizer_state_determines_group` (via Pauli expectation values, valid tableaux with real stabilizer rows, criterion
+  `Grp`) are the same theorem: the two criteria coincide (`Sweep.grp_criterion_iff_spn_criterion`), and C07's proof gives this
+  file's statement on its domain.  `fidelity_is_squared_inner_product` (`z · conj z`) and `C07.stabilizer_state_overlap`
+  (`|z|²`) state the overlap in two notations (`Sweep.normSq_forms`). -/
+
+/-- C07's criterion (`Grp`: groups generated by the stabilizer rows) and C05's (`Spn`: spans of the stabilizer halves) agree
+    for tableaux with real stabilizer rows -/
+theorem same_group_criteria_agree (a b : Tab) (ra : a.StabReal) (rb : b.StabReal) :
+    (∀ P, TabSpec.Grp a P ↔ TabSpec.Grp b P) ↔ (∀ p, (STab.ofTab a).Spn p ↔ (STab.ofTab b).Spn p) :=
+  Sweep.grp_criterion_iff_spn_criterion a b ra rb
+
+/-- `same_density_matrix_iff_same_group`, second proof (C07's route through Pauli expectation values) on tableaux with real
+    stabilizer rows -/
+theorem same_density_matrix_iff_same_group_by_expectations (a b : Tab) (hn : a.n = b.n) (va : a.Valid) (ra : a.StabReal)
+    (vb : b.Valid) (rb : b.StabReal) :
+    Hilbert.rho a.n (STab.ofTab a) = Hilbert.rho a.n (STab.ofTab b) ↔
+      ∀ p, (STab.ofTab a).Spn p ↔ (STab.ofTab b).Spn p :=
+  Sweep.same_state_iff_same_span_of_expectations a b hn va ra vb rb
+
+/-- the squared modulus in the two notations -/
+theorem squared_inner_product_is_normSq (z : ℂ) : z * star z = ((Complex.normSq z : ℝ) : ℂ) := Sweep.normSq_forms z
+
+/-- **the value `inner_product` reports is the executable specification** (`Model/OverlapSpec.lean`, the quantity the harness
+    compares with graphiq's `fidelity`): C05's and C07's Hilbert-space theorems about `tr(ρ_a ρ_b)` combined, for valid
+    tableaux with real stabilizer rows -/
+theorem reported_value_is_the_overlap_specification (a b : Tab) (r : Option Nat) (hn : a.n = b.n) (va : a.Valid)
+    (ra : a.StabReal) (vb : b.Valid) (rb : b.StabReal) (h : STab.innerProduct a b = .ok r) :
+    (Orth (STab.ofTab a) (STab.ofTab b) → Hilbert.ipVal r = 0) ∧
+    (¬ Orth (STab.ofTab a) (STab.ofTab b) →
+      Hilbert.ipVal r = ((STab.ofTab a).commonCount (STab.ofTab b) : ℂ) / 2 ^ b.n) ∧
+    (∀ d, ¬ Orth (STab.ofTab a) (STab.ofTab b) → OverlapDim (STab.ofTab a) (STab.ofTab b) d →
+      Hilbert.ipVal r = (1 / 2 : ℂ) ^ (b.n - d)) :=
+  Sweep.reported_value_is_spec_overlap a b r hn va ra vb rb h
+
+/-- the hypotheses of the cross-reference theorems are met by `|00⟩`: valid, real stabilizer rows, and `inner_product` returns -/
+example : (Tab.ket0 2).Valid ∧ (Tab.ket0 2).StabReal ∧ STab.innerProduct (Tab.ket0 2) (Tab.ket0 2) = .ok (some 0) :=
+  ⟨(Tab.isSymplectic_iff _).mp (by decide), Hilbert.ket0_stabReal 2, by decide +kernel⟩
 
 end Graphiq.C05
